@@ -32,6 +32,8 @@ type c03H2Scenario struct {
 	ending   string // end-stream | rst | goaway | close | midframe | none-then-close-before-headers
 	frames   int    // number of DATA frames the sent bytes are split into
 	complete bool   // the exchange is a complete, consistent response
+	status   int    // response status (0 = 200)
+	head     bool   // the client sends HEAD
 	code     uint32 // error code of RST_STREAM / GOAWAY
 	lastAt   bool   // GOAWAY last-stream-id = this stream (else 0, below it)
 	finish   bool   // after GOAWAY(last = this stream): still send the rest with END_STREAM
@@ -138,7 +140,11 @@ func (p *c03H2Peer) serve(c net.Conn) {
 				return
 			}
 			hbuf.Reset()
-			enc.WriteField(hpack.HeaderField{Name: ":status", Value: "200"})
+			st := sc.status
+			if st == 0 {
+				st = 200
+			}
+			enc.WriteField(hpack.HeaderField{Name: ":status", Value: strconv.Itoa(st)})
 			enc.WriteField(hpack.HeaderField{Name: "content-type", Value: "application/octet-stream"})
 			if sc.declared >= 0 {
 				enc.WriteField(hpack.HeaderField{Name: "content-length", Value: strconv.Itoa(sc.declared)})
@@ -230,6 +236,13 @@ func TestVerif_C03_h2cut(t *testing.T) {
 		switch r.Intn(14) {
 		case 0, 1: // control
 			sc.name = "complete"
+			// controls without a body although a length is declared: HEAD, 204, 304
+			if r.Intn(4) == 0 {
+				sc.name, sc.head, sc.declared, sc.send = "complete-head-with-length", true, len(body), 0
+			}
+			// (no 304-with-length control on HTTP/2: like x/net/http2 the fork installs a
+			// "missing body" for END_STREAM on HEADERS with Content-Length > 0, so reading it
+			// yields unexpected EOF — over-strict, not a truncation reported as success)
 		case 2, 3, 4: // RST_STREAM with EVERY error code, incl. NO_ERROR, mid-body or after headers only
 			sc.ending, sc.send, sc.complete, sc.code = "rst", cutAt(), false, allCodes[rstSeq%len(allCodes)]
 			rstSeq++
@@ -274,7 +287,15 @@ func TestVerif_C03_h2cut(t *testing.T) {
 		} else {
 			cc.prepClient(c)
 		}
-		first, ferr := c03DoFirst(c, url, stream, cc)
+		method := "GET"
+		if sc.head {
+			method = "HEAD"
+		}
+		want := body
+		if sc.head || sc.status == 304 {
+			want = ""
+		}
+		first, ferr := c03DoFirstM(c, method, url, stream, cc)
 		callerName := cc.name()
 		if stream {
 			callerName = "stream"
@@ -299,7 +320,7 @@ func TestVerif_C03_h2cut(t *testing.T) {
 				s.Count("replayed-after-goaway")
 			} else if !sc.complete {
 				ok, why = false, "incomplete/inconsistent HTTP/2 response reported as success: "+c04Short(first)
-			} else if first != "ok body="+body {
+			} else if first != "ok body="+want {
 				ok, why = false, "body differs from the true body"
 			}
 			reached["ok"]++
@@ -332,7 +353,7 @@ func TestVerif_C03_h2cut(t *testing.T) {
 	if failures >= 12 {
 		return
 	}
-	for _, need := range []string{"ok", "fail", "complete", "rst-code-0", "rst-code-8", "goaway-code-0-last-at", "goaway-code-0-last-below", "goaway-graceful-complete", "rst-noerror-after-end-stream", "tcp-close", "midframe", "short-end-stream", "overlong", "close-before-headers"} {
+	for _, need := range []string{"ok", "fail", "complete", "complete-head-with-length", "rst-code-0", "rst-code-8", "goaway-code-0-last-at", "goaway-code-0-last-below", "goaway-graceful-complete", "rst-noerror-after-end-stream", "tcp-close", "midframe", "short-end-stream", "overlong", "close-before-headers"} {
 		if reached[need] == 0 {
 			t.Errorf("C03/h2cut never reached %q", need)
 		}
